@@ -1071,6 +1071,107 @@ func (cpu *CPU) irq() {
  * ====================================================================
  */
 
+// Decimal mode (D = 1): ADC and SBC work on packed BCD digits. Each helper goes through the digits from the
+// lowest one, adjusting a digit that left the range 0-9 and carrying into the next; the returned sum has the
+// decimal carry in the bit above the top digit (bit 8 or bit 16), where the binary sum has its carry. The
+// subtraction helpers take the complemented operand, like the binary path.
+
+func adcDecimal8(a, d, c uint16) uint16 {
+	r := (a & 0x0F) + (d & 0x0F) + c
+	if r > 0x09 {
+		r += 0x06
+	}
+	k := uint16(0)
+	if r > 0x0F {
+		k = 0x10
+	}
+	r = (a & 0xF0) + (d & 0xF0) + k + (r & 0x0F)
+	if r > 0x9F {
+		r += 0x60
+	}
+	return r
+}
+
+func adcDecimal16(a, d, c uint32) uint32 {
+	r := (a & 0x000F) + (d & 0x000F) + c
+	if r > 0x0009 {
+		r += 0x0006
+	}
+	k := uint32(0)
+	if r > 0x000F {
+		k = 0x0010
+	}
+	r = (a & 0x00F0) + (d & 0x00F0) + k + (r & 0x000F)
+	if r > 0x009F {
+		r += 0x0060
+	}
+	k = 0
+	if r > 0x00FF {
+		k = 0x0100
+	}
+	r = (a & 0x0F00) + (d & 0x0F00) + k + (r & 0x00FF)
+	if r > 0x09FF {
+		r += 0x0600
+	}
+	k = 0
+	if r > 0x0FFF {
+		k = 0x1000
+	}
+	r = (a & 0xF000) + (d & 0xF000) + k + (r & 0x0FFF)
+	if r > 0x9FFF {
+		r += 0x6000
+	}
+	return r
+}
+
+func sbcDecimal8(a, d, c uint16) uint16 {
+	r := int32(a&0x0F) + int32(d&0x0F) + int32(c)
+	if r <= 0x0F {
+		r -= 0x06
+	}
+	k := int32(0)
+	if r > 0x0F {
+		k = 0x10
+	}
+	r = int32(a&0xF0) + int32(d&0xF0) + k + (r & 0x0F)
+	if r > 0xFF {
+		return uint16(r)&0xFF | 0x100
+	}
+	return uint16(r-0x60) & 0xFF
+}
+
+func sbcDecimal16(a, d, c uint32) uint32 {
+	r := int32(a&0x000F) + int32(d&0x000F) + int32(c)
+	if r <= 0x000F {
+		r -= 0x0006
+	}
+	k := int32(0)
+	if r > 0x000F {
+		k = 0x0010
+	}
+	r = int32(a&0x00F0) + int32(d&0x00F0) + k + (r & 0x000F)
+	if r <= 0x00FF {
+		r -= 0x0060
+	}
+	k = 0
+	if r > 0x00FF {
+		k = 0x0100
+	}
+	r = int32(a&0x0F00) + int32(d&0x0F00) + k + (r & 0x00FF)
+	if r <= 0x0FFF {
+		r -= 0x0600
+	}
+	k = 0
+	if r > 0x0FFF {
+		k = 0x1000
+	}
+	r = int32(a&0xF000) + int32(d&0xF000) + k + (r & 0x0FFF)
+	if r > 0xFFFF {
+		return uint32(r)&0xFFFF | 0x10000
+	}
+	return uint32(r-0x6000) & 0xFFFF
+}
+
 // ADC - Add with Carry
 // I'm not sure what I'm doing ;)
 func (cpu *CPU) op_adc() {
@@ -1081,12 +1182,7 @@ func (cpu *CPU) op_adc() {
 		sum := a + d + c
 
 		if cpu.D == 1 {
-			if (sum & 0x0F) > 0x09 {
-				sum = sum + 0x06
-			}
-			if (sum & 0xF0) > 0x90 {
-				sum = sum + 0x60
-			}
+			sum = adcDecimal8(a, d, c)
 		}
 
 		if sum > 0xFF {
@@ -1111,18 +1207,7 @@ func (cpu *CPU) op_adc() {
 		sum := a + d + c
 
 		if cpu.D == 1 {
-			if (sum & 0x000F) > 0x0009 {
-				sum = sum + 0x0006
-			}
-			if (sum & 0x00F0) > 0x0090 {
-				sum = sum + 0x0060
-			}
-			if (sum & 0x0F00) > 0x0900 {
-				sum = sum + 0x0600
-			}
-			if (sum & 0xF000) > 0x9000 {
-				sum = sum + 0x6000
-			}
+			sum = adcDecimal16(a, d, c)
 		}
 
 		if sum > 0xFFFF {
@@ -1761,12 +1846,7 @@ func (cpu *CPU) op_sbc() {
 		sum := a + d + c
 
 		if cpu.D == 1 {
-			if (sum & 0x0F) > 0x09 {
-				sum = sum + 0x06
-			}
-			if (sum & 0xF0) > 0x90 {
-				sum = sum + 0x60
-			}
+			sum = sbcDecimal8(a, d, c)
 		}
 
 		if sum > 0xFF {
@@ -1791,18 +1871,7 @@ func (cpu *CPU) op_sbc() {
 		sum := a + d + c
 
 		if cpu.D == 1 {
-			if (sum & 0x000F) > 0x0009 {
-				sum = sum + 0x0006
-			}
-			if (sum & 0x00F0) > 0x0090 {
-				sum = sum + 0x0060
-			}
-			if (sum & 0x0F00) > 0x0900 {
-				sum = sum + 0x0600
-			}
-			if (sum & 0xF000) > 0x9000 {
-				sum = sum + 0x6000
-			}
+			sum = sbcDecimal16(a, d, c)
 		}
 
 		if sum > 0xFFFF {
